@@ -166,3 +166,12 @@ Proof.
   - unfold closest_weights, fxY. rewrite fx_line. intros ws H. inversion H; subst.
     repeat constructor; lra.
 Qed.
+
+Lemma closest_points_feasible_nonvacuous_ex :
+  convex fxA /\ convex fxB /\ rows fxA fxB fxY fxP fxQ /\
+  (exists a b, calculate_closest_points fxY fxP fxQ = Some (a, b)) /\ tetra_regular fxY /\
+  (forall ws, closest_weights fxY = Some ws -> Forall (fun w => 0 <= w) ws).
+Proof.
+  destruct closest_points_feasible_nonvacuous as (H1 & H2 & H3 & H4 & H5 & H6).
+  refine (conj H1 (conj H2 (conj H3 (conj _ (conj H5 H6))))). eexists; eexists; exact H4.
+Qed.
